@@ -43,7 +43,7 @@ EDIT_EDGES = {
     "consts": {"quick": {"MaxP": 2, "MaxF": 2, "MaxL": 5, "DBig": 2}, "thorough": {"MaxP": 3, "MaxF": 2, "MaxL": 7, "DBig": 3}},
     "workers": {"quick": 8, "thorough": 12},
     "timeout": {"quick": 600, "thorough": 6000},
-    "henv": {"quick": {"VERIF_MAPS": 2, "VERIF_WORKERS": 8}, "thorough": {"VERIF_MAPS": 3, "VERIF_WORKERS": 10}},
+    "henv": {"quick": {"VERIF_MAPS": 3, "VERIF_WORKERS": 8}, "thorough": {"VERIF_MAPS": 3, "VERIF_WORKERS": 10}},
 }
 EDIT_TRACE = {
     "kind": "trace", "name": "histories", "module": "Deb822EditTrace.tla", "cfg": "Deb822EditTrace.cfg",
@@ -54,13 +54,13 @@ EDIT_TRACE = {
 
 REL_STRINGS = {
     "kind": "tlc_replay", "name": "rel_strings", "module": "MCRelStrings.tla", "cfg": "MCRelStrings.cfg", "stage": "rel_strings",
-    "consts": {"quick": {"N": 3, "M": 5, "M2": 5}, "thorough": {"N": 4, "M": 7, "M2": 6}},
+    "consts": {"quick": {"N": 3, "M": 5, "M2": 5}, "thorough": {"N": 4, "M": 6, "M2": 6}},
     "workers": {"quick": 8, "thorough": 16}, "timeout": {"quick": 300, "thorough": 3000},
     "henv": {"quick": {"VERIF_MAPS": 3}, "thorough": {"VERIF_MAPS": 4}},
 }
 def rel_docs(stage, name):
     return {"kind": "tlc_replay", "name": name, "module": "MCRelDocs.tla", "cfg": "MCRelDocs.cfg", "stage": stage,
-            "consts": {"quick": {"Big": "FALSE"}, "thorough": {"Big": "TRUE"}},
+            "consts": {"quick": {"Big": "FALSE", "NRand": 300}, "thorough": {"Big": "TRUE", "NRand": 5000}},
             "workers": {"quick": 8, "thorough": 16}, "timeout": {"quick": 300, "thorough": 3000},
             "henv": {"quick": {"VERIF_MAPS": 3}, "thorough": {"VERIF_MAPS": 3}}}
 REL_DOCS = rel_docs("rel_docs", "rel_fields")
@@ -124,7 +124,7 @@ PROPS = {
         "claimed": True,
         "technique": "TLA+ editor model (tree-shaped I-layer) checked against the property relation on every edge by TLC; every edge replayed as a history on a live object; recorded histories validated against the trace specification",
         "level_text": "TLC checks on every edge of the bounded document graph that the implementation-shaped editor step (spec/Deb822Edit.tla) satisfies the property relation (spec/Deb822EditP.tla: list effect on the reported content, identity of every line outside the touched field, strict re-read equals reported content, earlier handles see the edit); every edge is replayed on a live object from its base document through the shortest history and the observed text/content compared with the predicted one; any step that differs, and every step of seeded random histories on repository documents, is judged by the same relation in TLC (trace validation).",
-        "level_note": "bounded graph (<= 2/3 paragraphs x <= 2 fields, 13 base layouts incl. comments, blank runs, missing final newline, duplicate names, built and parsed origins); strict reader trusted for the re-read clause only together with the spec's own reading of the printed lines",
+        "level_note": "bounded graph (<= 2/3 paragraphs x <= 2 fields, 15 base layouts incl. comments, blank runs, missing final newline, duplicate names, built and parsed origins); strict reader trusted for the re-read clause only together with the spec's own reading of the printed lines",
         "stages": [EDIT_EDGES, EDIT_TRACE],
         "rule": "every edge (document, operation) of the TLC state graph, replayed with its shortest history on a live object under 2-3 concretisations; plus seeded random histories of 10-60 calls on repository documents; distinct = distinct (base, history, operation) resp. distinct (operation, pre-text)",
         "exhaustive": {"quick": True, "thorough": True},
@@ -144,7 +144,7 @@ PROPS = {
         "claimed": True,
         "technique": "TLA+ relation lexer + recursive-descent parser machine model-checked by TLC (fidelity, termination bound); every behaviour replayed on the real tolerant/strict/single-entry/single-relation readers",
         "level_text": "spec/Rel.tla models the lexer and the lossless parser control point by control point; TLC proves for every class string up to the bound (substvars allowed or not) and every generated well-formed field that each token enters the tree exactly once and that the parser terminates within a linear step bound; each behaviour is replayed on Relations::parse_relaxed (both modes), Relations/Entry/Relation::from_str under several concretisations, comparing printed text, strict-iff-no-error and the substring clause; the syntax tree (via the cfg-guarded dump hook) and the error count are compared with the machine (drift only).",
-        "level_note": "bounded: all strings over the 18-class alphabet up to length 3 (4 thorough), up to 5 (7) over the 9 classes that open nested groups, up to 5 (6) over the 9 classes of complete groups and separators; plus generated fields",
+        "level_note": "bounded: all strings over the 18-class alphabet up to length 3 (4 thorough), up to 5 (6) over the 9 classes that open nested groups, up to 5 (6) over the 9 classes of complete groups and separators; plus generated fields",
         "stages": [REL_STRINGS, REL_DOCS],
         "rule": "every class string over the relation alphabet up to the bound x allow_substvar, and every generated field; distinct = distinct (class string, mode) of length >= 2",
         "exhaustive": {"quick": True, "thorough": True},
@@ -203,7 +203,7 @@ PROPS = {
     "C08": {
         "claimed": True,
         "technique": "TLA+ list model of a lossy paragraph (list laws checked by TLC); every history edge replayed on the real paragraph; printed text re-read with both readers at every state",
-        "level_text": "spec/MCLossyPara.tla models a lossy paragraph as the ordered list it is and set/insert/remove with the list semantics of Deb822EditP; TLC checks the list laws and enumerates all histories to the depth bound from five base paragraphs; the harness replays each on lossy::Paragraph, compares the field list, get, len after every step, and prints the resulting paragraph (and a two-paragraph document) and reads it back with the lossy and the lossless reader.",
+        "level_text": "spec/MCLossyPara.tla models a lossy paragraph as the ordered list it is and set/insert/remove with the list semantics of Deb822EditP; TLC checks the list laws and enumerates all histories to the depth bound from six base paragraphs over three names (one differing from another by case only); the harness replays each on lossy::Paragraph, compares the field list, get, len after every step, and prints the resulting paragraph (and a two-paragraph document) and reads it back with the lossy and the lossless reader.",
         "level_note": "bounded: histories <= 3 operations, <= 4 fields, 2 names, 6 value shapes (single line, several lines, empty, empty first line, trailing blanks / ':' / '#', non-ASCII with ':' and '-' continuation lines) x 3 concretisations",
         "stages": [{"kind": "tlc_replay", "name": "lossy_para_edges", "module": "MCLossyPara.tla", "cfg": "MCLossyPara.cfg", "stage": "lossy_para", "coverage": False,
                     "consts": {"quick": {"Depth": 2, "MaxF": 4}, "thorough": {"Depth": 3, "MaxF": 5}},
@@ -216,9 +216,9 @@ PROPS = {
         "claimed": True,
         "technique": "TLA+ definition of DEP-5 glob matching and of last-match / licence resolution; TLC computes, per pattern, the exact set of matching paths and, per generated copyright file, the expected paragraph and licence for each path; replayed on both readers",
         "level_text": "spec/MCCopyright.tla defines Match by structural recursion over pattern tokens and the lookup rules; TLC enumerates every pattern up to the token bound with the full set of paths it matches over a path alphabet containing the metacharacters, and every copyright file built from two or three Files paragraphs (pattern pool, one or two patterns on the same or a continuation line, inline or by-name licences) with stand-alone licence paragraphs; the harness embeds each in a real copyright file and compares FilesParagraph::matches / find_files / find_license_for_file / find_license_by_name of the lossless and the lossy reader with the expectation, plus the Format gate.",
-        "level_note": "bounded: patterns <= 3 tokens (4 thorough) over literals incl. regex metacharacters, '*', '?', the three escapes; paths <= 3 (4) characters; backslash before any other character is a DEP-5 error and outside",
+        "level_note": "bounded: patterns <= 3 tokens (4 thorough) over literals incl. regex metacharacters, '*', '?', the three escapes; paths <= 3 (4) characters; patterns of 4-5 (6) tokens over {a, b, *, ?} against all paths over {a, b} up to 5 (7) characters; backslash before any other character is a DEP-5 error and outside",
         "stages": [{"kind": "tlc_replay", "name": "glob_and_lookup", "module": "MCCopyright.tla", "cfg": "MCCopyright.cfg", "stage": "copyright",
-                    "consts": {"quick": {"PatLen": 3, "PathLen": 3, "Wide": "FALSE"}, "thorough": {"PatLen": 3, "PathLen": 4, "Wide": "TRUE"}},
+                    "consts": {"quick": {"PatLen": 3, "PathLen": 3, "Wide": "FALSE", "PatLen2": 5, "PathLen2": 5}, "thorough": {"PatLen": 3, "PathLen": 4, "Wide": "TRUE", "PatLen2": 6, "PathLen2": 7}},
                     "workers": {"quick": 8, "thorough": 16}, "timeout": {"quick": 600, "thorough": 6000}}],
         "rule": "one case per pattern (with all paths up to the bound) and per generated copyright file (with 6 paths); executions = (pattern, path) and (file, path) pairs",
         "exhaustive": {"quick": True, "thorough": True},
@@ -243,7 +243,7 @@ PROPS = {
         "level_note": "the rebuilders are not modelled as an I-layer: the specification judges observations (P-layer only); relation-valued fields are expected to equal Relations::wrap_and_sort of the value (whose canonical form is C13's subject); paragraph comparators depend only on names and values",
         "stages": [{"kind": "tlc_replay", "name": "wrap_cases", "module": "MCDeb822Wrap.tla", "cfg": "MCDeb822Wrap.cfg", "stage": "wrap", "trace_out": True,
                     "workers": {"quick": 4, "thorough": 8}, "timeout": {"quick": 300, "thorough": 1200},
-                    "henv": {"quick": {"VERIF_MAPS": 2}, "thorough": {"VERIF_MAPS": 3}}},
+                    "henv": {"quick": {"VERIF_MAPS": 3}, "thorough": {"VERIF_MAPS": 3}}},
                    {"kind": "trace", "name": "wrap_applications", "module": "Deb822WrapTrace.tla", "cfg": "Deb822WrapTrace.cfg", "stage": "wrap", "append_from": "wrap_cases",
                     "n": {"quick": 30, "thorough": 1500}, "timeout": {"quick": 600, "thorough": 3000}}],
         "rule": "every (document layout, settings) case x 2-3 concretisations, control files x 3 settings, repository documents with seeded random settings; one trace event per application; distinct = distinct (input text, settings)",
@@ -254,7 +254,7 @@ PROPS = {
         "claimed": True,
         "technique": "TLA+ enumeration of the value spaces and keyword tables of the typed field values (no state machine: pure encode/decode); every value and rejection probe replayed on the real FromStr/Display",
         "level_text": "spec/MCCodecs.tla holds the documented keyword tables of the seven enumerations and the value spaces of the record and prefixed types; TLC enumerates every keyword, every rejection probe (each keyword of every other table plus mangled forms) and every record value within scope; the harness checks from_str(to_string(v)) == v, that printing the parsed value gives the same text again, and that foreign keywords are rejected. This property is the thinnest fit for a TLA+ specification (DESIGN.md section 4): the spec contributes the tables and the exhaustive case list, nothing stateful is claimed.",
-        "level_note": "bounded scopes: 4 (8 thorough) tokens (ASCII, hex, path, non-ASCII, '0', '-', punctuation), sizes {0, 1, 2^31-1, 2^63}, 3 URLs x 2 branches x 2 subpaths; Urgency accepts case variants (not probed); parse_origin/format_origin are crate-private and exercised through the DEP-3 accessors (C15)",
+        "level_note": "bounded scopes: 4 (8 thorough) tokens (ASCII, hex, path, non-ASCII, '0', '-', punctuation), sizes {0, 1, 2^31-1, 2^63}, 5 URLs (incl. an IPv6 literal and userinfo + port) x 2 branches x 2 subpaths; Urgency accepts case variants (not probed); parse_origin/format_origin are crate-private and exercised through the DEP-3 accessors (C15)",
         "stages": [{"kind": "tlc_replay", "name": "codec_values", "module": "MCCodecs.tla", "cfg": "MCCodecs.cfg", "stage": "codecs",
                     "consts": {"quick": {"NTok": 4}, "thorough": {"NTok": 8}},
                     "workers": {"quick": 4, "thorough": 8}, "timeout": {"quick": 300, "thorough": 600}}],
